@@ -1,5 +1,6 @@
 """Licmp6 (layer sub-check: ICMPv6 header + NDP messages) configuration for ./check"""
 CONF = {
+    'coq_sample': 15,   # cases re-evaluated inside Coq by vm_compute against the extracted runner's output
     'interesting': ['truncated-prefix-of-valid', 'option-length-extreme', 'residue-options', 'multi-option',
                     'odd-payload', 'dirty-buffer', 'no-fixlengths', 'error-after-add', 'error-residue', 'option-string'],
     'rule': 'Kinds hdr/rs/ra/ns/na/rd/opts. Messages built field by field by the harness with 0..5 options, every truncation length, '
